@@ -521,10 +521,12 @@ class TensorDict(TensorDictBase):
                 )
 
             def convert_type(x, y):
+                # only re-wrap what a state-dict hook replaced: a value that already has
+                # the class of the original keeps its identity
                 if isinstance(y, nn.Parameter):
-                    return nn.Parameter(x)
+                    return x if isinstance(x, nn.Parameter) else nn.Parameter(x)
                 if isinstance(y, Buffer):
-                    return Buffer(x)
+                    return x if isinstance(x, Buffer) else Buffer(x)
                 return x
 
             input = state_dict.unflatten_keys(".")._fast_apply(
